@@ -53,7 +53,7 @@ def main():
     findings = load_findings()
     if args.replay:
         return replay(prop, mod, queries, args.replay)
-    results = engine.run_all(queries, prop, findings)
+    results = engine.run_all(engine.split_queries(queries), prop, findings)
     wall = time.time() - t0
     code = EXIT_OK
     nviol = 0
